@@ -5,6 +5,7 @@
 import Fca.Lemmas.MVContext
 import Fca.Lemmas.MVBinarize
 import Fca.Lemmas.MVLattice
+import Fca.Lemmas.MVHist
 namespace Fca.C14
 open Fca Fca.MV
 
@@ -96,6 +97,118 @@ theorem binarize_same_closed_sets (K : MVCtx) (hwf : K.WF) (hc : K.cols ≠ []) 
   · intro hb
     rw [K.cl_eq, K.clSpec_nil_of_bottomOK hb]; congr 1
     exact (K.closure_binTable_nil hwf hc).symm
+
+/-! ## binarisation: names are labels of positions; only the current contents count -/
+
+/-- One binary attribute per produced description, in order, WHATEVER the generated names are.  `nm` (column,
+    position ↦ the `describe_pattern` string) is arbitrary — nothing is assumed about it, in particular not that it is
+    injective (`SetPS` calls the descriptions `{'a','b'}` and `{'a, b'}` both `"s: a, b"`, `{'∅'}` and the empty
+    description both `"s: ∅"`).  `binarize()` with names succeeds; its table and object names are those of the
+    unnamed model `binarize` (so `binarize_same_closed_sets` speaks about it); its attribute names are the produced
+    names in the produced order, repetitions kept; it has as many names as columns; the width is the SUM of the
+    `n_bin_attrs` the columns declare; and column `a` of the table is the `a`-th produced extent.  FULL. -/
+theorem binarize_one_attribute_per_description (K : MVCtx) (nm : Nat → Nat → String) (hwf : K.WF)
+    (hn : 1 ≤ K.nObjects) (hc : K.cols ≠ []) :
+    ∃ Kn, K.binarizeNamed nm = .ok Kn ∧
+      K.binarize = .ok ⟨Kn.table, Kn.objNames⟩ ∧
+      Kn.attrNames = (K.binAttrNamed nm).map (·.1) ∧
+      Kn.attrNames.length = Kn.table.width ∧
+      Kn.table.width = (K.cols.map Col.nBinAttrs).sum ∧
+      (∀ g a, g < K.nObjects → a < Kn.table.width →
+        Kn.table.get g a = (K.binAttrExtents.getD a []).getD g false) := by
+  have hne : (K.binAttrNamed nm).isEmpty = false := by
+    cases h : K.binAttrNamed nm with
+    | nil =>
+      have := K.binAttrNamed_length nm
+      rw [h] at this
+      exact absurd (List.eq_nil_of_length_eq_zero this.symm) (K.binAttrExtents_ne_nil hc)
+    | cons _ _ => rfl
+  refine ⟨⟨Spec.transpose (Table.ofRows K.binAttrExtents), K.objNames, (K.binAttrNamed nm).map (·.1)⟩,
+    ?_, K.binarize_eq hc, rfl, ?_, ?_, ?_⟩
+  · unfold MVCtx.binarizeNamed
+    simp only [hne, Bool.false_eq_true, ↓reduceIte, K.binAttrNamed_map_snd nm]
+    rfl
+  · show ((K.binAttrNamed nm).map (·.1)).length = K.binTable.width
+    rw [List.length_map, K.binAttrNamed_length nm, K.binTable_width]
+  · show K.binTable.width = K.nBinAttrs
+    rw [K.binTable_width, K.nBinAttrs_eq hwf hn]
+  · intro g a hg ha
+    exact K.binTable_get hwf hc g a hg ha
+
+/-- the context of seeded change C14-g: one `SetPS` column over the values `'a' < 'a, b' < 'b'` (numbered 0, 1, 2) with
+    the cells `{'a'}`, `{'b'}`, `{'a, b'}` -/
+def collideK : MVCtx := ⟨[.set [[0], [2], [1]]], 3, ["g0", "g1", "g2"]⟩
+/-- the names `SetPS.describe_pattern` gives its 8 descriptions: positions 2 (`{'a','b'}`) and 5 (`{'a, b'}`) collide -/
+def collideNm : Nat → Nat → String := fun _ k =>
+  ["s: a, a, b, b", "s: a, a, b", "s: a, b", "s: a, b, b", "s: a", "s: a, b", "s: b", "s: ∅"].getD k ""
+
+/-- `d[k] = v` on a dict kept as an association list in insertion order: an existing key keeps its position and gets
+    the new value -/
+def dictSet (d : List (String × List Bool)) (k : String) (v : List Bool) : List (String × List Bool) :=
+  if d.any (·.1 == k) then d.map fun q => if q.1 == k then (k, v) else q else d ++ [(k, v)]
+
+/-- assembling the pairs through a name-keyed dict (`dict(pairs)`) — NOT what `binarize()` does; it is here only to
+    show that the theorem above excludes it -/
+def dictAssemble (pairs : List (String × List Bool)) : List (String × List Bool) :=
+  pairs.foldl (fun d p => dictSet d p.1 p.2) []
+
+/-- Non-vacuity: the hypotheses are satisfiable WITH colliding names — the attribute names of the binarised context are
+    not duplicate-free, the width is still the declared 8, and `{0,1}` (the objects `'a'` and `'b'`) is closed in the
+    binarised context exactly as in the many-valued one; a name-keyed assembly of the same pairs would have 7 columns
+    and close `{0,1}` to all three objects. -/
+example : collideK.WF ∧ 1 ≤ collideK.nObjects ∧ collideK.cols ≠ [] ∧
+    (∃ Kn, collideK.binarizeNamed collideNm = .ok Kn ∧ ¬ Kn.attrNames.Nodup ∧ Kn.table.width = 8 ∧
+      collideK.nBinAttrs = 8 ∧ Spec.closure Kn.table [0, 1] = [0, 1] ∧ collideK.clSpec [0, 1] = [0, 1]) ∧
+    (dictAssemble (collideK.binAttrNamed collideNm)).length = 7 ∧
+    Spec.closure (MVCtx.tr (Table.ofRows ((dictAssemble (collideK.binAttrNamed collideNm)).map (·.2)))) [0, 1]
+      = [0, 1, 2] := by
+  refine ⟨by decide, by decide, by decide, ⟨_, rfl, by decide, by decide, by decide, by decide, by decide⟩,
+    by decide, by decide⟩
+
+/-- Binarisation depends only on the CURRENT column contents.  Let one context object live through any history of
+    queries (`n_bin_attrs`, `binarize`, `to_bin_attr_extents`, `intention_i`, `extension_i`, closures, lattice
+    constructions) and public mutations (`ps.data = …`, in-place edits of `ps.data[i]`, `K.pattern_structures = […]`,
+    `K.object_names = […]`), each accepted by its setter.  Then for the state `K'` reached:
+    `binarize()` succeeds with the CURRENT object names, one row per object, width = the sum of the `n_bin_attrs` of the
+    CURRENT columns = the number of produced extents; it closes every non-empty object set exactly as the current
+    many-valued context does; and its table is a function of the current columns alone — any other context with the
+    same columns (other names, another history, a freshly built one) binarises to the same table.  FULL. -/
+theorem binarize_after_history (K : MVCtx) (steps : List MVCtx.Step) (hwf : K.WF) (hn : 1 ≤ K.nObjects)
+    (hc : K.cols ≠ []) (hv : K.HistValid steps) :
+    ∃ Kb, (K.run steps).binarize = .ok Kb ∧
+      Kb.objNames = (K.run steps).objNames ∧ Kb.table.height = K.nObjects ∧
+      Kb.table.width = ((K.run steps).cols.map Col.nBinAttrs).sum ∧
+      Kb.table.width = (K.run steps).binAttrExtents.length ∧
+      (∀ A, A ≠ [] → InRange A K.nObjects → (K.run steps).cl A = .ok (Spec.closure Kb.table A)) ∧
+      (∀ K₂ : MVCtx, K₂.cols = (K.run steps).cols → ∃ Kb₂, K₂.binarize = .ok Kb₂ ∧ Kb₂.table = Kb.table) := by
+  obtain ⟨hwf', hc', hn'⟩ := K.run_invariants steps hwf hc hv
+  obtain ⟨Kb, hb, hnames, hh, _, hw, hw'⟩ := binarize_objects_and_width (K.run steps) hwf' (by rw [hn']; exact hn) hc'
+  obtain ⟨Kb', hb', hcl, _⟩ := binarize_same_closed_sets (K.run steps) hwf' hc'
+  rw [hb] at hb'
+  cases hb'
+  refine ⟨Kb, hb, hnames, by rw [hh, hn'], hw, by rw [hw, hw'], ?_, ?_⟩
+  · intro A hA hr
+    exact hcl A hA (by rw [hn']; exact hr)
+  · intro K₂ h₂
+    refine ⟨_, K₂.binarize_eq (by rw [h₂]; exact hc'), ?_⟩
+    rw [(K.run steps).binarize_eq hc'] at hb
+    cases hb
+    show Spec.transpose (Table.ofRows K₂.binAttrExtents) = Spec.transpose (Table.ofRows (K.run steps).binAttrExtents)
+    unfold MVCtx.binAttrExtents
+    rw [h₂]
+
+/-- a history in the scope of the theorem: everything is used, a reading −1 is corrected to −2 through the setter
+    (the edit of seeded change C14-h: it keeps CPython's `hash` of the column), one cell is edited in place, the objects
+    are renamed; the final binarisation has the 6 attributes of the final column -/
+example : (⟨[.interval [(-3, -3), (-1, -1), (0, 0)]], 3, ["a", "b", "c"]⟩ : MVCtx).HistValid
+      [.query .nBinAttrs, .query .binarize, .query (.lattice 1000),
+       .setData 0 (.interval [(-3, -3), (-2, -2), (0, 0)]), .query .binarize,
+       .setCell 0 2 (.iv (-2, 0)), .setObjNames ["x", "y", "z"]] ∧
+    ((⟨[.interval [(-3, -3), (-1, -1), (0, 0)]], 3, ["a", "b", "c"]⟩ : MVCtx).run
+      [.query .nBinAttrs, .query .binarize, .query (.lattice 1000),
+       .setData 0 (.interval [(-3, -3), (-2, -2), (0, 0)]), .query .binarize,
+       .setCell 0 2 (.iv (-2, 0)), .setObjNames ["x", "y", "z"]]).nBinAttrs = 5 := by
+  refine ⟨by decide, by decide⟩
 
 /-! ## lattice level
 
